@@ -47,3 +47,15 @@ Example C12_replay_accepts_and_refuses :
   fst (replay true (fun _ => 0) (fun s => s) init
          [EMiss 0 7 [EConst 1]; EPut 0 7 [EConst 1] 0; EMiss 1 8 [ECloId 0]]) = 2.
 Proof. split; vm_compute; reflexivity. Qed.
+
+
+(* the type normaliser is one module-level object used by every thread (the lru_cache in front of it does not serialise
+   concurrent misses): no method stores into it after construction - the list of statements that would, regenerated from
+   /repo on every run, is empty - and forward references are evaluated on a namespaced COPY (the reviewed text) *)
+Theorem C12_normalizer_is_never_mutated_after_construction : normalizer_self_writes = [].
+Proof. exact normalizer_is_never_mutated_after_construction. Qed.
+Print Assumptions C12_normalizer_is_never_mutated_after_construction.
+
+Theorem C12_normalizer_namespace_code_is_the_reviewed_one : normalizer_namespace_code = reviewed_normalizer_namespace_code.
+Proof. exact normalizer_namespace_code_is_the_reviewed_one. Qed.
+Print Assumptions C12_normalizer_namespace_code_is_the_reviewed_one.
